@@ -228,6 +228,9 @@ func ValidateDecryptionKeysSignatures(
 	if int32(len(extra.SignerIndices)) != keyperSet.Threshold {
 		return pubsub.ValidationReject, errors.Errorf("expected %d signers, got %d", keyperSet.Threshold, len(extra.SignerIndices))
 	}
+	if len(extra.Signatures) != len(extra.SignerIndices) {
+		return pubsub.ValidationReject, errors.Errorf("expected %d signatures, got %d", len(extra.SignerIndices), len(extra.Signatures))
+	}
 
 	res, err := validateSignerIndices(extra, len(keyperSet.Keypers))
 	if res != pubsub.ValidationAccept {
